@@ -552,7 +552,7 @@ class C16Serialise(Checker):
                         for a, d in spec.attributes_of_element(n.name).items():
                             if d['required'] and a not in n.attrs and not (a.startswith('xlink:') or a in ('xml:lang',)):
                                 missing.append((n.name, a))
-                if not missing:
+                if not missing and _library_tree_is_shadow(node):
                     empties = [(n.name, a) for n in node.walk() for a, v in n.attrs.items() if v == '' or v == 0]
                     w.violate('C16', 'accepted-value-not-serialised', {'elem': node.name, 'exc': ev['t'], 'falsy_values': empties[:4]})
             return
@@ -578,8 +578,13 @@ class C16Serialise(Checker):
             w.violate('C16', 'string-not-recovered', bad)
             return
         # subtree vs inside parent: serialise one checked child alone and compare infosets
-        kids = [c for c in node.children if c.xsd_check]
-        if kids and op.get('subtree') is not None:
+        try:
+            emitted = {id(x) for x in node.el.get_children()}
+        except Exception:
+            emitted = set()
+        # only children the parent really serialises (a replaced-out child still sitting in the container is C06's business)
+        kids = [c for c in node.children if c.xsd_check and id(c.el) in emitted]
+        if kids and op.get('subtree') is not None and len(emitted) == len(node.children):
             c = kids[op['subtree'] % len(kids)]
             r = w.call(lambda: c.el.to_string())
             if r[0] == 'ok':
@@ -591,6 +596,22 @@ class C16Serialise(Checker):
                 inside = [k for k in et if k.tag == c.name]
                 if not any(_infoset(k) == _infoset(sub) for k in inside):
                     w.violate('C16', 'subtree-differs', {'elem': c.name, 'parent': node.name})
+
+
+def _library_tree_is_shadow(node):
+    """True if the elements the library would serialise below `node` are exactly the shadow's nodes (no ghost child
+    left by a failed add, no replaced-out child still in the container)."""
+    st = [node]
+    while st:
+        n = st.pop()
+        try:
+            kids = list(n.el.get_children())
+        except Exception:
+            return False
+        if sorted(map(id, kids)) != sorted(id(c.el) for c in n.children):
+            return False
+        st.extend(n.children)
+    return True
 
 
 def _infoset(e):
